@@ -4,6 +4,7 @@ from lm import lanes as LN, expr as X, guards as G, linprove as LP
 from lm.lanes import Vec, Ptr, lane
 from lm.match import norm, m
 from lm.db import short
+import re
 from . import common, kernels as K, C01, C19
 
 LEVEL_NOTE = ('decides (part): inventory of every unsafe fn / unsafe call of the core crate, each claimed by a rule; kernel preconditions (wrap check, resize, early return) dominate the '
@@ -737,7 +738,86 @@ def r68(db, ctx):
     ctx.floor('R6.8', n, 40, 'row-pointer accesses with a proved row budget')
 
 
+def r69(db, ctx):
+    ctx.rule('R6.9', 'scratch buffers: every vector load/store through a pointer into a local array stays inside it: offset + width <= size_of(array); '
+                     'a buffer indexed by the SSE2 column-block offset (16*i, i < C/16) must be C elements long (GenericArray<_, C>), not a fixed length')
+    n = 0
+    for path in ALL_KERNELS:
+        f, E, err = K.evaluate(db, path)
+        if E is None:
+            continue
+        facts = block_offset_facts(db, E, f)
+        for a in E.acc:
+            if a.kind not in ('load', 'store') or not isinstance(a.ptr, Ptr) or not a.width:
+                continue
+            root, steps, off = root_of(E, a.ptr)
+            if root is None:
+                continue
+            cls = classify(root.base)
+            if cls[0] in ('ROW', 'SLICE'):
+                continue
+            size, sym_len, what = None, None, None
+            if cls[0] == 'LOCAL':
+                ty = f.local_ty(cls[1]) or ''
+                mm = re.match(r'^\[(.+); (\d+)\]$', ty)
+                if mm and LN.sizeof(mm.group(1)):
+                    size, what = int(mm.group(2)) * LN.sizeof(mm.group(1)), f'`{f.local_name(cls[1]) or cls[1]}`: {ty}'
+            else:
+                # a local GenericArray<T, N> (its value is the fresh `GenericArray::default()`)
+                inner = cls[1]
+                fresh = any(isinstance(x, tuple) and x and x[0] == 'call' and str(x[1]).startswith('generic_array::') and str(x[1]).endswith('default') for x in X.walk(inner)) \
+                    if isinstance(inner, tuple) else False
+                gas = [f.local_ty(t['dest']['l']) for _, t in f.calls() if (f.callee_short(t) or '').startswith('generic_array::') and (f.callee_short(t) or '').endswith('default')]
+                if fresh and len(gas) == 1 and gas[0].startswith('generic_array::GenericArray<'):
+                    args_ = gas[0][len('generic_array::GenericArray<'):-1]
+                    elem_ty, n_ty = args_.split(',', 1)[0].strip(), args_.split(',', 1)[1].strip()
+                    if LN.sizeof(elem_ty):
+                        sym_len, what = (n_ty, LN.sizeof(elem_ty)), f'GenericArray<{elem_ty}, {n_ty}>'
+            if size is None and sym_len is None:
+                ctx.fail('R6.9', f, f'{a.name}', f'reason=unrecognised-shape: vector access through a pointer that is neither a matrix row, a parameter slice nor a local array: {root}', span=a.span)
+                continue
+            if steps:
+                ctx.fail('R6.9', f, f'{a.name}', 'a pointer into a scratch buffer is advanced by a loop', span=a.span)
+                continue
+            const = off.get('', 0)
+            others = {k: v for k, v in off.items() if k != ''}
+            ok, why = False, ''
+            if not others and size is not None:
+                ok = 0 <= const and const + a.width <= size
+                why = f'{const} + {a.width} <= {size}'
+            elif not others and sym_len is not None:
+                # N >= 16 for a column count that is a multiple of 16
+                ok = 0 <= const and const + a.width <= 16 * sym_len[1] and n_is_columns(f, sym_len[0])
+                why = f'{const} + {a.width} <= 16*{sym_len[1]} <= N*{sym_len[1]}'
+            elif len(others) == 1:
+                k_ = next(iter(others))
+                if facts.get(k_) == 16 and sym_len is not None and others[k_] == sym_len[1] and n_is_columns(f, sym_len[0]):
+                    # offset = 16*i elements with i < C/16: offset*e + const + width <= C*e  iff  const + width <= 16*e
+                    ok = 0 <= const and const + a.width <= 16 * sym_len[1]
+                    why = f'16*i*{sym_len[1]} + {const} + {a.width} <= C*{sym_len[1]} for i < C/16'
+                elif isinstance(facts.get(k_), tuple) and sym_len is not None and others[k_] == 16 * sym_len[1] and n_is_columns(f, sym_len[0]):
+                    # block index b in 0..C/16 times 16 elements
+                    ok = 0 <= const and const + a.width <= 16 * sym_len[1]
+                    why = f'16*b*{sym_len[1]} + {const} + {a.width} <= C*{sym_len[1]} for b < C/16'
+                elif size is not None:
+                    why = (f'the offset {X.lin_str(off)[:60]} grows with the column count C, but the buffer is {what} ({size} bytes): for C > {size // max(1, int(others[k_]))} '
+                           'the store lands past the array, in the caller\'s frame')
+            if ok:
+                n += 1
+                ctx.ok('R6.9', f, f'{a.name} inside {what} ({why})')
+            else:
+                ctx.fail('R6.9', f, f'{a.name} may leave its scratch buffer', why or f'access of {a.width} bytes at {X.lin_str(off)[:80]} is not shown to stay inside {what}', span=a.span)
+    ctx.floor('R6.9', n, 13, 'vector accesses to scratch buffers shown in bounds')
+
+
+def n_is_columns(f, n_ty):
+    """The array length parameter is the column-count parameter C of the function (bounded `MultipleOf<U16>`, hence >= 16)."""
+    preds = ' '.join(f.raw.get('preds') or [])
+    return n_ty == 'C' and 'MultipleOf' in preds
+
+
 def run(db, ctx):
+    r69(db, ctx)
     r61(db, ctx)
     r62(db, ctx)
     r63b(db, ctx)
